@@ -10,9 +10,33 @@ ASSUMPTIONS = [
     'C07: environment of harness/warcenv.py (fake FS, gzip as framing, uninterpreted SHA-1, fixed clock, counter uuids); the CDX file '
     'and the archives are re-read by independent code in the harness',
     'C07: move_to and the log record are outside the claim',
+    'C07: I/O faults are not part of the property\'s quantifier; cdx_after_fault checks only that after a failed append no CDX line '
+    'addresses a record that is not there (a record left without its line after a failed journal unlink is not judged; faults on the '
+    'CDX file itself are skipped)',
+    'C07: the MIME-type oracle is RFC 7231 media-type syntax: type "/" subtype of tchar tokens at the start of the (unfolded) value',
 ]
 
-_CT = [None, 'text/html', 'text/html; charset=utf-8', 'application/x-foo-bar;q=1', 'TEXT/PLAIN', 'garbage', '']
+_CT = [None, 'text/html', 'text/html; charset=utf-8', 'application/x-foo-bar;q=1', 'TEXT/PLAIN', 'garbage', '',
+       'image/svg+xml', 'text/html charset=UTF-8', 'text/plain, text/plain', 'image/png\r\n name="image.png"', '\r\n\timage/png',
+       'application/vnd.ms-excel.sheet.macroEnabled.12', 'a/b/c', '/x', 'x/', 'text/html;\r\n charset=x']
+_TCHAR = frozenset("!#$%&'*+-.^_`|~0123456789abcdefghijklmnopqrstuvwxyzABCDEFGHIJKLMNOPQRSTUVWXYZ")
+
+
+def _ref_mime(ct):
+    """RFC 7231 3.1.1.1: media-type = type "/" subtype *( OWS ";" OWS parameter ); the CDX column is type/subtype or '-'."""
+    if not ct:
+        return '-'
+    value = ' '.join(x.strip() for x in ct.split('\r\n')).strip()         # obs-fold unfolded
+    head = value
+    for i, ch in enumerate(value):
+        if ch not in _TCHAR and ch != '/':
+            head = value[:i]
+            break
+    parts = head.split('/')
+    if len(parts) >= 2 and parts[0] and parts[1]:
+        return parts[0] + '/' + parts[1]
+    return '-'
+
 _STATUS = [200, 404, 301, 500, 204]
 
 
@@ -52,7 +76,7 @@ def _response(status, ct_i, body, nfields, lf_only):
     return eol.join(lines) + eol + eol + body, ct
 
 
-def _cdx_ranges(body, compress, rollover, appending, nsessions, status_i, ct_i, nfields, lf_only, cut):
+def _cdx_ranges(body, compress, rollover, appending, nsessions, status_i, ct_i, nfields, lf_only, cut, same_url=False):
     body = fixlen(body, 2)
     status = pick(_STATUS, status_i)
     fs = fakefs.FS()
@@ -67,13 +91,33 @@ def _cdx_ranges(body, compress, rollover, appending, nsessions, status_i, ct_i, 
     wire, ct = _response(status, ct_i, body, nfields, lf_only)
     urls = []
     for i in range(nsessions):
-        url = 'http://h.example/%d' % i
+        url = 'http://h.example/%d' % (0 if same_url else i)    # same_url: a repeated capture of one URL with an identical payload
         urls.append(url)
         warcenv.http_exchange(rec, url, wire, [cut] if cut else [])
     rec.close()
-    lines = _cdx_lines(fs)
+    lines = _consistent(fs, compress)
     if lines is None:
         return False
+    for l in lines:
+        if l['a'] in urls and nfields < 3:
+            # status code and MIME type of the archived response (header blocks > 4 KiB: known finding D14, see cdx_big_header)
+            if l['s'] != str(status) or l['m'] != _ref_mime(ct):
+                return False
+    hit('rollover' if rollover else 'one-file')
+    if appending:
+        hit('appended')
+    # the reader used for de-duplication sees the same values
+    import io
+    with nosym():
+        back = list(read_cdx(io.BytesIO(bytes(fs.files['out.cdx']))))
+    return len(back) == len(lines) and all(b['u'] == l['u'] and b['V'] == l['V'] and b['g'] == l['g'] and b['k'] == l['k'] for b, l in zip(back, lines))
+
+
+def _consistent(fs, compress, need_all=True):
+    """CDX lines <-> response records of all archives: one line per record, exact byte range, id / URL / checksum equal. Returns the lines or None."""
+    lines = _cdx_lines(fs)
+    if lines is None:
+        return None
     # every response record of every archive, by (file, offset)
     responses = {}
     for name in fs.files:
@@ -85,39 +129,55 @@ def _cdx_ranges(body, compress, rollover, appending, nsessions, status_i, ct_i, 
         for r in recs:
             if warcenv.field(r, 'WARC-Type') == 'response':
                 responses[(name, r['start'])] = r
-    if len(lines) != len(responses):
-        return False                                 # exactly one line per response record, none for other records
+    if need_all and len(lines) != len(responses):
+        return None                                  # exactly one line per response record, none for other records
     seen = set()
     for l in lines:
         key = (l['g'], int(l['V']))
         r = responses.get(key)
         if r is None or key in seen:
-            return False                             # the offset does not address a response record of that file
+            return None                              # the offset does not address a response record of that file
         seen.add(key)
         if int(l['S']) != r['end'] - r['start']:
-            return False                             # the length is not exactly that record / gzip member
+            return None                              # the length is not exactly that record / gzip member
         if l['u'] != warcenv.field(r, 'WARC-Record-ID') or l['a'] != warcenv.field(r, 'WARC-Target-URI'):
-            return False
+            return None
         pd = warcenv.field(r, 'WARC-Payload-Digest')
         if l['k'] != (pd.replace('sha1:', '', 1) if pd else '-'):
-            return False
-        if l['a'] in urls and nfields < 3:
-            # status code and MIME type of the archived response (header blocks > 4 KiB: known finding D14, see cdx_big_header)
-            want_mime = '-'
-            if ct:
-                head = ct.split(';')[0].strip()
-                ok = '/' in head and all(c.isalnum() or c in '-/' for c in head) and head.count('/') == 1 and head[0] != '/' and head[-1] != '/'
-                want_mime = head if ok else '-'
-            if l['s'] != str(status) or l['m'] != want_mime:
-                return False
-    hit('rollover' if rollover else 'one-file')
-    if appending:
-        hit('appended')
-    # the reader used for de-duplication sees the same values
-    import io
+            return None
+    return lines
+
+
+def _cdx_after_fault(k, compress, rollover):
+    """Three exchanges; an I/O error is injected at the k-th file operation of the second. Whatever was or was not written for it,
+    the CDX file and the archives stay consistent (no line for a record that was rolled back, no record without its line)."""
+    fs = fakefs.FS()
     with nosym():
-        back = list(read_cdx(io.BytesIO(bytes(fs.files['out.cdx']))))
-    return len(back) == len(lines) and all(b['u'] == l['u'] and b['V'] == l['V'] and b['g'] == l['g'] and b['k'] == l['k'] for b, l in zip(back, lines))
+        rec = warcenv.new_recorder(fs, compress=compress, cdx=True, max_size=(1 if rollover else None))
+        wire, _ = _response(200, 1, b'ab', 1, False)
+        warcenv.http_exchange(rec, 'http://h.example/0', wire, [])
+    fs.fault_at = fs.ops + k
+    try:
+        warcenv.http_exchange(rec, 'http://h.example/1', wire, [])
+    except OSError:
+        hit('faulted')
+    fs.fault_at = 0
+    if fs.faulted is None:
+        hit('no-fault')
+    elif fs.faulted[2].endswith('.cdx'):
+        return True                                  # a torn CDX append itself is outside the claim (faults on the index file)
+    with nosym():
+        try:
+            warcenv.http_exchange(rec, 'http://h.example/2', wire, [])
+            rec.close()
+        except OSError:
+            return fs.faulted is not None            # the recorder may refuse to go on after a failure; it must not corrupt silently
+    # after an injected fault only the safety direction is required: no line may address anything but its own complete response
+    # record (a record left without a line - CDX append or journal unlink failed - is outside C07's quantifier, which has no faults)
+    lines = _consistent(fs, compress, need_all=fs.faulted is None)
+    if lines is None:
+        return False
+    return fs.faulted is not None or len(lines) == 3
 
 
 def _cdx_big_header(status_i, ct_i):
@@ -148,7 +208,8 @@ def _get_http_header(status_i, ct_i, nfields, lf_only, body):
         return False                                 # a well-formed header block must be readable
     if resp.status_code != status:
         return False
-    return resp.fields.get('Content-Type') == (ct if ct is None else ct.strip()) or (ct == '' and resp.fields.get('Content-Type', '') == '')
+    want = ct if ct is None else ' '.join(x.strip() for x in ct.split('\r\n')).strip()       # obs-fold unfolded
+    return resp.fields.get('Content-Type') == want or (ct == '' and resp.fields.get('Content-Type', '') == '')
 
 
 def _fx(**kw):
@@ -157,30 +218,38 @@ def _fx(**kw):
 
 HARNESSES = [
     H('cdx_ranges', '_cdx_ranges',
-      'body: bytes, compress: bool, rollover: bool, appending: bool, nsessions: int, status_i: int, ct_i: int, nfields: int, lf_only: bool, cut: int',
-      pre=['len(body) <= 1 and 1 <= nsessions <= 2 and 0 <= status_i <= 4 and 0 <= ct_i <= 6 and 0 <= nfields <= 3 and 0 <= cut <= 1'],
+      'body: bytes, compress: bool, rollover: bool, appending: bool, nsessions: int, status_i: int, ct_i: int, nfields: int, lf_only: bool, cut: int, same_url: bool',
+      pre=['len(body) <= 1 and 1 <= nsessions <= 2 and 0 <= status_i <= 4 and 0 <= ct_i <= 16 and 0 <= nfields <= 3 and 0 <= cut <= 1'],
       parts={'quick': [{'tag': t, 'fix': fx} for t, fx in (
-          ('plain', _fx(compress=False, rollover=False, appending=False, nsessions=1, status_i=0, nfields=1, lf_only=False, cut=0)),
-          ('gz_roll', _fx(compress=True, rollover=True, appending=False, nsessions=2, status_i=1, ct_i=2, nfields=2, lf_only=False)),
-          ('append', _fx(compress=False, rollover=False, appending=True, nsessions=1, status_i=2, ct_i=1, nfields=0, lf_only=True)),
-          ('bighdr', dict(_fx(compress=True, rollover=False, appending=False, nsessions=1, nfields=3, lf_only=False, cut=0), body="b'x'")),
-          ('append_gz_roll', _fx(compress=True, rollover=True, appending=True, nsessions=2, status_i=0, ct_i=0, nfields=1, lf_only=False, cut=0)))],
+          ('plain', _fx(same_url=False, compress=False, rollover=False, appending=False, nsessions=1, status_i=0, nfields=1, lf_only=False, cut=0)),
+          ('same_url', _fx(compress=False, rollover=False, appending=False, nsessions=2, ct_i=1, nfields=1, lf_only=False, cut=0, same_url=True)),
+          ('gz_roll', _fx(same_url=False, compress=True, rollover=True, appending=False, nsessions=2, status_i=1, ct_i=2, nfields=2, lf_only=False)),
+          ('append', _fx(same_url=False, compress=False, rollover=False, appending=True, nsessions=1, status_i=2, ct_i=1, nfields=0, lf_only=True)),
+          ('bighdr', dict(_fx(same_url=False, compress=True, rollover=False, appending=False, nsessions=1, nfields=3, lf_only=False, cut=0), body="b'x'")),
+          ('append_gz_roll', _fx(same_url=False, compress=True, rollover=True, appending=True, nsessions=2, status_i=0, ct_i=0, nfields=1, lf_only=False, cut=0)))],
              'thorough': [{'tag': 'z%d_r%d_a%d_n%d' % (z, r, a, n), 'fix': _fx(compress=bool(z), rollover=bool(r), appending=bool(a), nsessions=n)}
                           for z in (0, 1) for r in (0, 1) for a in (0, 1) for n in (1, 2)]},
       timeout={'quick': 280, 'thorough': 2400},
-      samples=[(b'a', False, False, False, 1, 0, 1, 1, False, 0), (b'', True, True, True, 2, 1, 2, 2, False, 0)], need=['one-file', 'rollover', 'appended'],
+      samples=[(b'a', False, False, False, 1, 0, 1, 1, False, 0, False), (b'', True, True, True, 2, 1, 2, 2, False, 0, False), (b'a', False, False, False, 2, 0, 1, 1, False, 0, True)], need=['one-file', 'rollover', 'appended'],
       funcs=['wpull/warc/recorder.py:WARCRecorder.write_record', 'wpull/warc/recorder.py:WARCRecorder._write_cdx_field',
              'wpull/warc/recorder.py:WARCRecorder._write_cdx_header', 'wpull/warc/recorder.py:WARCRecorder.parse_mimetype',
              'wpull/warc/recorder.py:WARCRecorder.flush_session', 'wpull/warc/format.py:WARCRecord.get_http_header', 'wpull/warc/format.py:read_cdx'],
       doc='for every CDX line the byte range (file, offset, length) is exactly one complete response record / gzip member of that file with '
           'the same record id, URL and payload checksum; one line per response record and none for others; status and MIME are those of the '
           'archived response (multi-line headers, any Content-Type); compressed / rolled-over / appended output; read_cdx reads it back'),
+    H('cdx_after_fault', '_cdx_after_fault', 'k: int, compress: bool, rollover: bool', pre=['1 <= k <= 40'],
+      parts=[{'tag': 'plain', 'fix': {'compress': 'False'}}, {'tag': 'gzip', 'fix': {'compress': 'True'}}],
+      timeout={'quick': 250, 'thorough': 600}, samples=[(3, False, False), (12, True, True), (40, False, False)], need=['faulted', 'no-fault'],
+      funcs=['wpull/warc/recorder.py:WARCRecorder.write_record', 'wpull/warc/recorder.py:WARCRecorder._write_cdx_field'],
+      doc='an I/O error injected at each of the first 40 file operations of the second of three exchanges (request record, response '
+          'record, CDX append, rollover): afterwards every CDX line still addresses exactly one response record and every response '
+          'record has its line'),
     H('cdx_big_header', '_cdx_big_header', 'status_i: int, ct_i: int', pre=['0 <= status_i <= 1 and 1 <= ct_i <= 2'],
       timeout={'quick': 90, 'thorough': 90}, finding='D14', samples=[],
       funcs=['wpull/warc/format.py:WARCRecord.get_http_header'],
       doc='status/MIME of a response whose header block is larger than 4 KiB (expected to fail: D14)'),
     H('get_http_header', '_get_http_header', 'status_i: int, ct_i: int, nfields: int, lf_only: bool, body: bytes',
-      pre={'quick': ['0 <= status_i <= 2 and 0 <= ct_i <= 6 and 0 <= nfields <= 2 and len(body) <= 1'], 'thorough': ['0 <= status_i <= 4 and 0 <= ct_i <= 6 and 0 <= nfields <= 2 and len(body) <= 2']},
+      pre={'quick': ['0 <= status_i <= 2 and 0 <= ct_i <= 16 and 0 <= nfields <= 2 and len(body) <= 1'], 'thorough': ['0 <= status_i <= 4 and 0 <= ct_i <= 16 and 0 <= nfields <= 2 and len(body) <= 2']},
       timeout={'quick': 200, 'thorough': 600},
       samples=[(0, 1, 1, False, b'ab'), (1, 0, 0, True, b'')], need=['parsed'],
       funcs=['wpull/warc/format.py:WARCRecord.get_http_header', 'wpull/protocol/http/request.py:Response.parse_status_line'],
